@@ -115,6 +115,15 @@ def do_case(ctx, inp):
             ctx.fail("solver-did-not-receive-the-configurator-polyhedron", {"got_vars": gvars, "want_vars": avars}); return
         if len(gobjs) != len(objectives):
             ctx.fail("not-one-objective-vector-per-request", {"requests": len(objectives), "vectors": len(gobjs)}); return
+        # the entry at each column is the (compressed) priority of what was given for THAT column's id — generated helper
+        # ids are ids like any other: the vector is the shadow compression of [default priorities, the request read off by
+        # column id] (the compression itself is C13's subject; here its input row must be the request, column by column)
+        dp_ = o.default_prios
+        for k, d in enumerate(objectives):
+            rows_ = [[int(dp_.get(i, -1)) for i in ids], [int(d.get(i, 0)) for i in ids]]
+            want_ = [int(x) for x in pnd.integer_ndarray(np.array(rows_)).ndint_compress(method="shadow", axis=0)]
+            if [int(x) for x in gobjs[k]] != want_:
+                ctx.fail("objective-entry-is-not-the-compressed-priority-given-for-that-column", {"request": d, "ids": ids, "got": [int(x) for x in gobjs[k]], "want": want_}); return
         if len(objectives) > 1:
             # one objective vector per request: request k of a multi-request call gets the vector it gets when asked alone
             for k, d in enumerate(objectives):
@@ -186,6 +195,11 @@ def run(ctx):
             if not free01(t): continue
         names = sorted(leaves_of(t)) + compound_ids(t) + ["unknown-id"]
         objectives = [{x: rng.randint(-4, 4) for x in rng.sample(names, rng.randint(0, min(4, len(names))))} for _ in range(rng.randint(1, 3))]
+        if rng.random() < 0.25:
+            # an earlier full result fed back as priorities: (nearly) EVERY column named, generated helper ids included, the
+            # selected ones with a weight
+            objectives.append({x: rng.choice([1, 1, 1, 2, 0]) for x in names[:-1] if rng.random() < 0.85})
+            ctx.tags["objective-naming-every-column-(a-result-fed-back)"] += 1
         do_case(ctx, {"ast": a, "objectives": objectives, "mode": rng.choice(["recorder", "recorder", "exact", "none", "raise"]),
                       "include_virtual": rng.random() < 0.5, "only_leafs": rng.random() < 0.5,
                       "via": rng.choice(["solve", "select"]),
